@@ -25,10 +25,12 @@ RecvExpect(c) ==
    local  |-> IF Honoured(c) /\ DeclaresAddr(c) THEN "hdr.dst" ELSE "sock.local"]
 \* observation o: [start (stream position the next handler starts reading at), hdrlen, slen,
 \*  got (bytes it read), intact, remote, local (symbolic, as classified by the harness),
-\*  phRemote, phLocal (what the placeholders show), ripMatch (remote_ip matcher on the declared source)]
+\*  phRemote, phLocal (what the placeholders show), ripMatch (remote_ip matcher on the declared source),
+\*  panic (text of a panic of the handler chain, "" if none)]
 RecvViolations(c, o) ==
   LET e == RecvExpect(c)
       from == IF e.strip = "header" THEN o.hdrlen ELSE 0 IN
+  (IF o.panic = "" THEN {} ELSE {"Q0 the handler panicked on a well-formed header"}) \cup
   (IF o.intact /\ o.start = from /\ o.got = o.slen - from THEN {}
    ELSE {"Q1 exactly the header bytes must be removed (all of the stream delivered to a peer outside the allow list)"})
   \cup (IF o.remote = e.remote /\ o.local = e.local THEN {}
